@@ -135,7 +135,7 @@ def tstr(t, depth=0):
     if k == 'agg':
         if t[1] in ('tuple', 'array'):
             return ('(%s)' if t[1] == 'tuple' else '[%s]') % ', '.join(tstr(a, d) for _, a in t[3])
-        return '%s%s{%s}' % (t[1].split('::')[-1], ('::' + t[2]) if t[2] else '',
+        return '%s%s{%s}' % (t[1].split('::')[-1], ('::' + t[2]) if (t[2] and t[2] != t[1].split('::')[-1]) else '',
                              ', '.join('%s: %s' % (n, tstr(a, d)) for n, a in t[3]))
     if k == 'closure':
         return 'closure:%s' % t[1].split('::', 1)[-1]
@@ -356,7 +356,55 @@ class Body:
                     if o not in seen and not self.blocks[o]['cleanup']:
                         seen.append(o)
                 self._succ[j] = seen
+            # jump threading for `matches!`-style bool temporaries: a block that sets
+            # `_t = const b` and falls through (empty goto blocks) into `switchInt(_t)`
+            # continues directly at the switch target for b.
+            for j, b in enumerate(self.blocks):
+                if b['cleanup'] or b['term']['k'] != 'goto':
+                    continue
+                tgt = self._thread_target(j)
+                if tgt is not None:
+                    self._succ[j] = [tgt]
         return self._succ[i]
+
+    def _thread_target(self, j):
+        b = self.blocks[j]
+        consts = {}
+        for s in b['stmts']:
+            if s['k'] == 'assign' and not s['place']['p']:
+                rv = s['rv']
+                if rv['k'] == 'use' and rv['o']['k'] == 'const' and rv['o'].get('ty') == 'bool' and rv['o'].get('v') in ('0', '1'):
+                    consts[s['place']['l']] = rv['o']['v']
+                else:
+                    consts.pop(s['place']['l'], None)
+        if not consts:
+            return None
+        cur = b['term']['t']
+        for _ in range(4):
+            w = self.blocks[cur]
+            if w['cleanup']:
+                return None
+            if w['stmts']:
+                return None
+            t = w['term']
+            if t['k'] == 'goto':
+                cur = t['t']
+                continue
+            if t['k'] == 'switch' and t['d']['k'] in ('move', 'copy') and not t['d']['place']['p']:
+                l = t['d']['place']['l']
+                if l not in consts:
+                    return None
+                # every whole definition of the temp must be a bool constant
+                for d in self.defs().get(l, []):
+                    if d[2] != 'assign' or d[3]['k'] != 'use' or d[3]['o']['k'] != 'const':
+                        return None
+                v = consts[l]
+                for val, dst in t['targets']:
+                    if val == v:
+                        return dst
+                return t['otherwise']
+            return None
+        return None
 
     def edges(self):
         """List of (src, dst, [Fact...]) — the facts are a disjunction (several switch
